@@ -23,19 +23,22 @@ N_VALUE_FUNCTIONS = 24
 
 PROVED_VS_SEARCHED = {
     "dim normalisation": "proved inside every theorem below (normAxis / torchDim), rank-0 special cases included",
-    "view algebra": "proved: flatten (_partial: zero-size dims outside the range), unflatten/view (allowzero Reshape = infer_size), "
-                    "reshape (_partial: no 0 in target), permute, transpose, t, squeeze, squeeze.dim (_partial: size 1), unsqueeze, "
-                    "expand/broadcast_to (torch-valid ⇒ equal); element maps: searched (onnxruntime vs torch values)",
-    "slicing": "proved: slice.Tensor length, narrow (_partial: start ≥ 0), select, index_select, chunk (_partial: even), split sizes "
-               "(_partial: d > 0), unbind, flip index map, roll index map (_partial: -d ≤ shift ≤ 2d, dim ≠ -1), tril/triu predicate, "
-               "diagonal length; values for rank > 1: searched",
-    "replication": "proved: repeat, tile, stack shape, cat shape (_partial: no legacy empty tensor); values: searched",
-    "integer arithmetic": "proved exact on Int: floor_divide (signed/unsigned), remainder, fmod, add/sub alpha, left shift (two's complement), "
-                          "right shift for w = 8 exhaustively; div.Tensor_mode on ints goes through float32: searched only (finding)",
-    "scalar promotion bookkeeping": "searched only (dtype of result compared with torch on every case); clamp/where/masked_fill: searched only",
-    "reductions' bookkeeping": "proved: output shape for dim lists / keepdim / empty list / None (sum, mean, amax/amin, all/any(.dim,.dims), "
-                               "argmax/argmin _partial, prod, cumsum); reduced values: A-op, searched",
-    "creation": "proved: arange length characterisation, linspace length, full/zeros/ones shape; values: searched",
+    "view algebra": "proved (function level, all ranks/sizes): flatten, unflatten, view, reshape, permute, transpose, t, squeeze, squeeze.dim, "
+                    "unsqueeze, expand/broadcast_to, atleast_nd, pixel_shuffle / pixel_unshuffle (_partial: non-empty); element maps of "
+                    "reshape-like views: searched (onnxruntime vs torch values)",
+    "slicing": "proved: slice.Tensor, narrow, select, index_select, gather, embedding, chunk, split, unbind, slice_scatter, select_scatter, "
+               "scatter.src/scatter_add (_partial: src of the index's shape), flip index map, roll index map + shape (any shift, empty tensors), "
+               "tril/triu predicate, diagonal; values for rank > 1: searched",
+    "replication": "proved: repeat, repeat_interleave.self_int, tile, stack, cat; values: searched",
+    "integer arithmetic": "proved exact on Int: floor_divide (signed/unsigned), remainder, fmod, div.Tensor_mode on ints, add/sub alpha, bool add, "
+                          "clamp order, left shift (two's complement), right shift for w = 8 exhaustively",
+    "scalar promotion bookkeeping": "searched only (dtype of result compared with torch on every case)",
+    "reductions' bookkeeping": "proved: output shape for dim lists / keepdim / empty list / None (sum, mean, amax/amin _partial, all/any(.dim,.dims), "
+                               "argmax/argmin, max.dim/min.dim, logsumexp, logcumsumexp, prod, cumsum, topk, softmax dim); reduced values: searched",
+    "linear algebra shapes": "proved: matmul (five documented cases vs the numpy rule), mm, bmm, mv, dot, linear (Gemm / 1-D weight / MatMul+Add); values: searched",
+    "attribute adjustment": "proved: pads layouts, avg/max pool, convolution (+transposed), conv1d/2d/3d (_partial: conv3d without bias), Pad, unfold, "
+                            "upsample size path, im2col, col2im; upsample scales path: searched",
+    "creation": "proved: arange length characterisation, linspace length, full/zeros/ones(-like) terms and shapes; values: searched",
     "floating-point kernels": "NOT proved (outside the technique): differential search only",
     "end-to-end export": "searched only (torch.onnx.export(dynamo=True) on small random modules)",
 }
@@ -536,6 +539,61 @@ def float_search(L, run, stats):
             d = rng.randint(-len(s), len(s) - 1)
             one("aten_softmax", [x, d], {}, lambda: t.softmax(t.tensor(x), d), dict(fn="softmax", shape=s, dim=d))
             one("aten__log_softmax", [x, d, False], {}, lambda: t.log_softmax(t.tensor(x), d), dict(fn="_log_softmax", shape=s, dim=d))
+        # scaled_dot_product_attention: no mask / causal / float mask / bool mask (incl. rows with no allowed key)
+        B, H, Lq, Lk, E, Ev = rng.choice([1, 2]), rng.choice([1, 2]), rng.choice([1, 3]), rng.choice([1, 2, 4]), rng.choice([2, 4]), rng.choice([2, 3])
+        q_, k_, v_ = arr([B, H, Lq, E]), arr([B, H, Lk, E]), arr([B, H, Lk, Ev])
+        kind = rng.choice(["none", "causal", "float", "bool", "bool"])
+        mask_ = None
+        if kind == "float":
+            mask_ = arr([B, 1, Lq, Lk])
+        elif kind == "bool":
+            mask_ = np.asarray(np.array([[rng.random() < 0.6 for _ in range(Lk)] for _ in range(Lq)]))
+        full = bool(kind == "bool" and (~mask_).all(axis=-1).any())
+        one("aten_scaled_dot_product_attention", [q_, k_, v_, mask_, 0.0, kind == "causal"], {},
+            lambda: F.scaled_dot_product_attention(t.tensor(q_), t.tensor(k_), t.tensor(v_), None if mask_ is None else t.tensor(mask_), 0.0, kind == "causal"),
+            dict(fn="sdpa", dims=[B, H, Lq, Lk, E, Ev], mask=kind, fully_masked_row=full))
+        # elu with all four scalars (input_scale != 1 reaches aten::elu through decompositions such as celu)
+        al_, sc_, isc_ = rng.choice([1.0, 0.5, 2, -1.0]), rng.choice([1.0, 2.0, 1]), rng.choice([1.0, 1, 0.5, 2])
+        one("aten_elu", [x, al_, sc_, isc_], {}, lambda: t.ops.aten.elu(t.tensor(x), al_, sc_, isc_),
+            dict(fn="elu", shape=s, alpha=al_, scale=sc_, input_scale=isc_))
+        # avg_pool2d with count_include_pad / divisor_override (ceil_mode is in the attribute family)
+        hw = [rng.randint(3, 6), rng.randint(3, 6)]
+        xa = arr([1, 2] + hw)
+        ks_ = [rng.randint(1, 3), rng.randint(1, 3)]
+        st_ = [rng.randint(1, 2), rng.randint(1, 2)]
+        pd_ = [rng.randint(0, ks_[0] // 2), rng.randint(0, ks_[1] // 2)]
+        cip_, dv_ = rng.random() < 0.5, rng.choice([None, None, 2, 3])
+        one("aten_avg_pool2d", [xa, ks_, st_, pd_, False, cip_, dv_], {}, lambda: F.avg_pool2d(t.tensor(xa), ks_, st_, pd_, False, cip_, dv_),
+            dict(fn="avg_pool2d", hw=hw, ks=ks_, st=st_, pad=pd_, count_include_pad=cip_, divisor_override=dv_))
+        # cross_entropy_loss: weight / reduction / ignore_index / label_smoothing
+        C_, Nb_ = rng.choice([2, 3, 4]), rng.choice([1, 2, 3])
+        xl = arr([Nb_, C_])
+        tg = np.asarray(np.array([rng.randrange(C_) for _ in range(Nb_)], dtype=np.int64))
+        wt_ = np.asarray(np.abs(arr([C_])) + 0.5) if rng.random() < 0.4 else None
+        red_, ls_ = rng.choice([0, 1, 2]), rng.choice([0.0, 0.0, 0.1])
+        one("aten_cross_entropy_loss", [xl, tg, wt_, red_, -100, ls_], {},
+            lambda: F.cross_entropy(t.tensor(xl), t.tensor(tg), None if wt_ is None else t.tensor(wt_), reduction=["none", "mean", "sum"][red_],
+                                    ignore_index=-100, label_smoothing=ls_),
+            dict(fn="cross_entropy", shape=[Nb_, C_], weight=wt_ is not None, reduction=red_, label_smoothing=ls_))
+        # isclose: tolerances, equal / opposite infinities (equal_nan is a documented FIXME of the function: not generated)
+        ia = arr([4])
+        ib = np.asarray(ia + np.float32(rng.choice([0, 1e-6, 1e-3, 0.1])))
+        has_inf = rng.random() < 0.4
+        if has_inf:
+            ia, ib = ia.copy(), ib.copy()
+            ia[0], ib[0] = np.inf, rng.choice([np.inf, -np.inf])
+            ia, ib = np.asarray(ia), np.asarray(ib)
+        rt_, at_ = rng.choice([1e-5, 1e-2, 0, 0.1]), rng.choice([1e-8, 1e-3, 0])
+        one("aten_isclose", [ia, ib, rt_, at_, False], {}, lambda: t.isclose(t.tensor(ia), t.tensor(ib), rt_, at_, False),
+            dict(fn="isclose", rtol=rt_, atol=at_, has_inf=has_inf, a0=float(ia[0]), b0=float(ib[0])))
+        # repeat_interleave with a tensor of repeats (exact; the result length depends on the values)
+        rs_ = [rng.choice([1, 2, 3]) for _ in range(rng.randint(1, 3))]
+        rx = np.asarray(np.arange(int(np.prod(rs_)), dtype=np.float32).reshape(rs_))
+        rd = None if rng.random() < 0.3 else rng.randint(-len(rs_), len(rs_) - 1)
+        reps_ = np.asarray(np.array([rng.randint(0, 3) for _ in range(int(np.prod(rs_)) if rd is None else rs_[rd])], dtype=np.int64))
+        if reps_.sum() > 0:
+            one("aten_repeat_interleave_Tensor", [rx, reps_, rd], {}, lambda: t.repeat_interleave(t.tensor(rx), t.tensor(reps_), rd),
+                dict(fn="repeat_interleave.Tensor", shape=rs_, rank=len(rs_), dim=rd, repeats=reps_.tolist()))
         a_, b_ = arr([2, 3]), arr([3, 2])
         one("aten_mm", [a_, b_], {}, lambda: t.mm(t.tensor(a_), t.tensor(b_)), dict(fn="mm"))
         bias = arr([2])
